@@ -640,6 +640,26 @@ def theorems_in(relpath, names, namespace):
 MISSING_THEOREMS = []
 
 
+def tag_mutations(rng, mac, all_pairs=True):
+    """Multi-position changes of an authenticator that a lane-wise / word-wise / XOR-accumulating comparison could miss: the same delta at two positions
+    (every pair for tags up to 16 bytes, else every pair 1, 2, 4, 8, 16, 32 apart plus random pairs), complement, rotations, swapped halves and 8-byte words, reversal."""
+    n = len(mac); out = []
+    pairs = [(i, j) for i in range(n) for j in range(i + 1, n)] if (all_pairs and n <= 16) else \
+            [(i, i + d) for d in (1, 2, 4, 8, 16, 32) for i in range(n - d)] + [tuple(sorted(rng.sample(range(n), 2))) for _ in range(16 if n >= 2 else 0)]
+    for (i, j) in pairs:
+        x = bytearray(mac); delta = rng.choice([1 << rng.randrange(8), rng.randrange(1, 256), 0xff]); x[i] ^= delta; x[j] ^= delta
+        out.append(bytes(x))
+    out.append(bytes(b ^ 0xff for b in mac))
+    for r in (1, 4, 8):
+        if n > r:
+            out.append(mac[r:] + mac[:r])
+    h = n // 2
+    if h:
+        out.append(mac[h:] + mac[:h])
+    out.append(mac[::-1])
+    return [x for x in out if x != mac]
+
+
 def hexs(b):
     return b.hex() if len(b) else "-"
 
